@@ -75,3 +75,108 @@ Proof.
     split; [exact Hst|]. split; [exact Hpal|]. split; [lia|]. split; [lia|]. split; [exact Hs|]. split; [exact Hm|].
     split; [rewrite He; exact Hbm | lia].
 Qed.
+
+Lemma mle_restrict_sub m lo hi o : mle (restrict m lo hi) o m o.
+Proof. intros i b. unfold restrict. destruct (_ && _); [auto|discriminate]. Qed.
+
+Lemma rle_refl n Sc : rle (dec_table n Sc) (dec_table n Sc).
+Proof. apply dec_table_mono. lia. Qed.
+
+(* flatcc_builder_create_buffer, top level (not nested) *)
+Lemma create_buffer_top n Sc st id b_align root align flags R v ref es st' :
+  st_ok st -> ma_ok st -> cache_ok st -> pow2 align -> min_align st <= align ->
+  balign_ok b_align -> balign_ok (block_align st) -> in_u32 id ->
+  Z.land flags 1 = 0 ->
+  e_start st <= root < 0 -> valid n Sc st (lvl_align st) (root_oty R) root v ->
+  create_buffer st id b_align root align flags = Some (ref, es, st') -> small st' ->
+  st_ok st' /\ e_start st' = ref /\ pow2 (min_align st') /\ 4 <= min_align st' /\ align <= min_align st' /\
+  ref mod min_align st' = 0 /\
+  decode_mem n Sc R (negb (Z.land flags 2 =? 0)) [min_align st'] (mem_of_list (buffer_bytes st')) (lenZ (buffer_bytes st')) = Some v /\
+  lenZ (buffer_bytes st') mod min_align st' = 0 /\ (b_align <> 0 -> b_align <= min_align st').
+Proof.
+  intros Hok Hma Hc Hal Hmin Hb Hbs Hid Hfl Hroot Hv E Hsm. unfold create_buffer in E.
+  rewrite Hfl in E. cbn [Z.eqb negb orb] in E.
+  set (ws := negb (Z.land flags 2 =? 0)) in *.
+  destruct (align_buffer_end st align b_align false) as [[[al es0] st1]|] eqn:Ea; [|discriminate].
+  set (st2 := set_min_align st1 al) in E.
+  set (id_size := if id =? 0 then 0 else 4) in E.
+  set (ws4 := if ws then 4 else 0) in E.
+  set (pad := front_pad st2 (4 + id_size + ws4) al) in E.
+  set (iov_len := ws4 + 4 + id_size + pad) in E.
+  set (bbase := u32 (u32 (e_start st2) - u32 iov_len + ws4)) in E.
+  destruct (emit_front st2 _) as [[[r e] st3]|] eqn:Ef; [|discriminate].
+  injection E as <- <- <-.
+  assert (Hsm2 : small st2) by (eapply emit_front_small; eauto).
+  assert (Hsm1 : small st1) by (apply (small_set_min_align st1 al); exact Hsm2).
+  destruct (align_buffer_end_top st align b_align al es0 st1 Hok Hma Hc Hal Hb Hbs Ea Hsm1)
+    as (Hst1 & Hpal & Hal4 & Hala & Hs1 & Hm1 & He1m & Hbal).
+  pose proof (step_set_min_align st1 al (s_ok _ _ Hst1) (s_ma _ _ Hst1) Hpal) as Hst2. fold st2 in Hst2.
+  destruct (set_min_align_fields st1 al) as (Hs2 & He2 & _ & _ & _ & _ & Hm2). fold st2 in Hs2, He2, Hm2.
+  assert (Hm2' : min_align st2 = al) by (rewrite Hm2; unfold zmax; destruct (min_align st1 <? al) eqn:X; lia).
+  destruct (step_emit_front _ _ _ _ _ (s_ok _ _ Hst2) (s_ma _ _ Hst2) Ef Hsm) as (Hst3 & Hr & Hs3 & He3 & Hm3 & _ & Hmem & _).
+  assert (Hids : id_size = 0 \/ id_size = 4) by (subst id_size; destruct (id =? 0); lia).
+  assert (Hws4 : ws4 = 0 \/ ws4 = 4) by (subst ws4; destruct ws; lia).
+  pose proof (front_pad_range st2 (4 + id_size + ws4) al Hpal) as Hpr. fold pad in Hpr.
+  pose proof (front_pad_aligned st2 (4 + id_size + ws4) al Hpal) as Hpa. fold pad in Hpa.
+  assert (Hlen : lenZ ((if ws then le32 (u32 (u32 (e_end st2) - bbase)) else []) ++ le32 (u32 (u32 root - bbase)) ++
+                        (if id =? 0 then [] else le32 id) ++ zeros pad) = iov_len).
+  { subst iov_len ws4 id_size. destruct ws, (id =? 0); rewrite ?lenZ_app, ?lenZ_le32, ?lenZ_zeros by lia;
+      change (lenZ []) with 0; clear Hpa; lia. }
+  rewrite Hlen in Hr.
+  assert (Hstep : step st st3) by exact (step_trans _ _ _ Hst1 (step_trans _ _ _ Hst2 Hst3)).
+  destruct (s_ok _ _ Hst3) as (Hs3' & He3' & Hlo3 & Hhi3).
+  destruct (s_ok _ _ Hst2) as (Hs2' & He2' & Hlo2 & Hhi2).
+  pose proof (lenZ_nonneg (front st2)) as Hf2. pose proof (lenZ_nonneg (back st2)) as Hb2.
+  pose proof (lenZ_nonneg (front st3)) as Hf3. pose proof (lenZ_nonneg (back st3)) as Hb3.
+  assert (Hrm : r mod al = 0).
+  { rewrite Hr. replace (e_start st2 - iov_len) with (e_start st2 - (4 + id_size + ws4) - pad) by (subst iov_len; ring). exact Hpa. }
+  assert (Hbb : bbase = u32 (r + ws4)).
+  { subst bbase. rewrite Hr. unfold u32. clear Hpa Hrm He1m. lia. }
+  assert (Hm3' : min_align st3 = al) by congruence.
+  assert (Hlvl : lvl_align st3 = al) by (unfold lvl_align; rewrite Hm3'; unfold zmax; destruct (al <? 4) eqn:X; lia).
+  assert (Hblen : lenZ (buffer_bytes st3) = e_end st3 - r) by (unfold buffer_bytes; rewrite lenZ_app; lia).
+  assert (Hal4d : al mod 4 = 0).
+  { eapply mod_divide_trans; [lia | apply (pow2_le_divide 4 al pow2_4 Hpal Hal4) | apply pow2_pos, Hpal | apply Z.mod_same; pose proof (pow2_pos _ Hpal); lia]. }
+  split; [exact (s_ok _ _ Hst3)|]. split; [exact Hs3|]. rewrite Hm3'.
+  split; [exact Hpal|]. split; [exact Hal4|]. split; [exact Hala|]. split; [exact Hrm|].
+  split.
+  2:{ split; [|exact Hbal]. rewrite Hblen, He3, He2.
+      pose proof (pow2_pos _ Hpal). rewrite Zminus_mod, He1m, Hrm. reflexivity. }
+  (* decoding *)
+  pose proof (vmem_bytes st3 (s_ok _ _ Hst3)) as Hmle. rewrite Hs3 in Hmle.
+  assert (Hord : org_ok st3 (lvl_align st3) r [0; al]).
+  { split; [lia|]. rewrite Hlvl. pose proof (pow2_pos _ Hpal).
+    constructor; [|constructor; [|constructor]].
+    - replace (0 - r) with ((-1) * r) by ring. rewrite Z.mul_mod, Hrm by lia. rewrite Z.mul_0_r. reflexivity.
+    - rewrite Zminus_mod, Hrm, Z.mod_same by lia. reflexivity. }
+  pose proof (step_valid n Sc st st3 _ _ _ Hma Hstep Hv r [0; al] Hord) as Hroot'.
+  assert (Hal_lst : forall hp, hp mod 4 = 0 -> aligned [0; al] hp 4 = true).
+  { intros hp Hhp. unfold aligned. cbn [forallb]. rewrite Z.add_0_l. rewrite Hhp.
+    rewrite Z.add_mod, Hal4d, Hhp by lia. reflexivity. }
+  assert (Hoo : u32 (u32 root - bbase) = root - r - ws4).
+  { rewrite Hbb. unfold u32. clear Hpa Hrm He1m Hal4d. lia. }
+  unfold decode_mem. destruct ws eqn:Ews.
+  - (* size prefixed *)
+    assert (Hws44 : ws4 = 4) by (subst ws4; reflexivity).
+    cbn [app] in Hmem. apply mem_has_app in Hmem. destruct Hmem as [Hmsz Hmem]. apply mem_has_app in Hmem. destruct Hmem as [Hmoff _].
+    rewrite lenZ_le32 in Hmoff.
+    assert (Hsz : u32 (u32 (e_end st2) - bbase) = e_end st3 - r - 4).
+    { rewrite Hbb, Hws44, He3. unfold u32. unfold small in Hsm. clear Hpa Hrm He1m Hal4d. lia. }
+    assert (Hrd0 : mrd32 (mem_of_list (buffer_bytes st3)) 0 = Some (e_end st3 - r - 4)).
+    { eapply (mrd32_at (vmem st3) r); [eapply mle_trans; [exact Hmle | apply mle_restrict_sub] | | ].
+      2:{ rewrite <- Hsz. apply mem_has_le32; [apply u32_range | exact Hmsz]. }
+      lia. }
+    rewrite Hrd0. cbn [bind]. rewrite Hblen.
+    replace (4 + (e_end st3 - r - 4) <=? e_end st3 - r) with true by lia.
+    replace (4 + (e_end st3 - r - 4)) with (e_end st3 - r) by ring. rewrite <- Hblen.
+    eapply dec_buffer_mono; [apply rle_refl | exact Hmle |].
+    eapply dec_buffer_root; [apply Hal_lst; reflexivity | | exact Hroot'].
+    unfold follow. rewrite (mem_has_le32 _ _ _ (u32_range _) Hmoff). cbn [bind].
+    rewrite Hoo, Hws44. replace (root - r - 4 =? 0) with false by lia. f_equal. ring.
+  - assert (Hws40 : ws4 = 0) by (subst ws4; reflexivity).
+    cbn [app] in Hmem. apply mem_has_app in Hmem. destruct Hmem as [Hmoff _].
+    eapply dec_buffer_mono; [apply rle_refl | exact Hmle |].
+    eapply dec_buffer_root; [apply Hal_lst; reflexivity | | exact Hroot'].
+    unfold follow. rewrite Z.add_0_r. rewrite (mem_has_le32 _ _ _ (u32_range _) Hmoff). cbn [bind].
+    rewrite Hoo, Hws40. replace (root - r - 0 =? 0) with false by lia. f_equal. ring.
+Qed.
